@@ -7,6 +7,20 @@ reaches the loop (JOB_DONE) relative to the other tasks' progress, when a late b
 the server answers a broadcast, and when one build is cancelled (fault) - and vf.explore.dfs_deviation
 enumerates all choice sequences (N <= 4) or all with at most d deviations from the default schedule
 (N in {6, 12}).  The ready queue is never reordered.
+
+Redundant interleavings are cut by state hashing inside the executions handed to dfs_deviation: beyond the
+replayed prefix an execution stops at a choice point whose *full* state (task positions and locals, ready
+queue, executor jobs with their payloads, lock queues, is_reserved column, harness variables) was already
+reached by an earlier execution of the same case; that earlier execution branches on every alternative
+there.  Selected cases are explored a second time without pruning and must give the same states, outcomes
+and verdicts (pruning_cross_checks).
+
+Oracle (every state): outputs handed to different builds and not yet given back are pairwise disjoint; each
+of them has is_reserved = 1; when no build is selecting or releasing, is_reserved is set for exactly those
+outputs.  After every build finished (built / refused / failed / cancelled) and every holder released:
+nothing is reserved and get_utxos() returns the initial set.  What a build was handed and what it gives
+back is observed at ledger.get_spendable_utxos / ledger.release_outputs (instance attributes that forward
+the call unchanged).
 """
 import hashlib
 import itertools
@@ -588,31 +602,30 @@ def gen_cases(tier):
     else:
         add(2, None, ALL_STRATEGIES, ov2)
         add(2, None, four, ov2, late=1)
-        add(2, None, two, ov2, cancel=0)
-        add(2, None, two, [['hold', 'hold'], ['release', 'bcast_fail']], cancel=0, late=1)
-        add(3, None, four, ov3)
-        add(3, None, two, [mixed3, ['release'] * 3, ['hold'] * 3, ['release', 'release', 'bcast_fail']], late=2)
-        add(3, ['n-1_equal', 'pairwise'], two, [mixed3], cancel=0)
-        add(3, None, two, [['hold'] * 3, ['release'] * 3], cancel=0)
+        add(2, None, two, ov2[:5], cancel=0)
+        add(2, ['n-1_equal', 'n_equal', 'pairwise'], two, [['hold', 'hold'], ['release', 'bcast_fail']], cancel=0, late=1)
+        add(3, None, two, ov3)
+        add(3, None, ['random_draw'], [mixed3, ['release'] * 3])
+        add(3, None, two, [mixed3, ['release'] * 3, ['hold'] * 3], late=2)
+        add(3, ['n-1_equal'], two, [mixed3], cancel=0)
+        add(3, ['n-1_equal', 'n_equal', 'pairwise'], two, [['hold'] * 3, ['release'] * 3], cancel=0)
         add(3, ['n-1_equal'], two, [['release'] * 3], cancel=0, late=2)
         add(4, None, four, [['release'] * 4, ['hold'] * 4])
-        add(4, ['n-1_equal', 'pairwise'], two, [['bcast_fail'] * 4])
-        add(4, ['n-1_equal', 'n_equal', 'pairwise'], two, [mixed4])
+        add(4, ['n-1_equal'], two, [['bcast_fail'] * 4])
+        add(4, ['n-1_equal', 'pairwise'], two, [mixed4])
         add(4, ['n-1_equal', 'pairwise'], two, [['release'] * 4], late=3)
         add(4, ['n-1_equal'], two, [['release'] * 4], cancel=0)
-        add(6, None, two, [['release'] * 6, mixed3 * 2], bound=2)
+        add(6, ['n-1_equal', 'pairwise', 'big+dust'], two, [['release'] * 6, mixed3 * 2], bound=2)
         add(6, ['n-1_equal', 'pairwise'], two, [mixed3 * 2], cancel=0, bound=1)
-        add(12, None, two, [['release'] * 12], bound=2)
+        add(12, ['n-1_equal', 'pairwise', 'big+dust'], two, [['release'] * 12], bound=2)
         add(12, ['n-1_equal', 'big+dust'], two, [mixed3 * 4], bound=1)
-        add(12, ['n-1_equal'], two, [mixed3 * 4], cancel=0, bound=1)
     # ---- the same exploration without state pruning must agree (validation of the pruning)
     add(2, ['n_equal', 'pairwise'] if quick else None, two, [['hold', 'release']], cross_check=True)
     add(2, ['n_equal'], ['prefer_confirmed'] if quick else two, [['bcast_fail', 'bcast_fail']], cross_check=True)
     add(2, ['n-1_equal'], two, [['release', 'bcast_fail']], late=1, cross_check=True)
     add(2, ['pairwise'] if quick else ['n_equal'], ['prefer_confirmed'] if quick else two, [['hold', 'release']], cancel=0, cross_check=True)
     if not quick:
-        add(3, ['n-1_equal'], two, [mixed3], cross_check=True)
-        add(3, ['pairwise'], ['sqlite'], [['release'] * 3], late=2, cross_check=True)
+        add(3, ['n-1_equal'], two, [['hold', 'hold', 'release']], cross_check=True)
     return cases
 
 
@@ -777,7 +790,13 @@ def run(ctx):
         bounds={'N_exhaustive': [2, 3, 4], 'N_bounded': {'6': 1 if ctx.quick else 2, '12': '1' if ctx.quick else '2 (1 with mixed outcomes)'},
                 'strategies': 3 if ctx.quick else 7, 'hashseed': ctx.hashseed, 'cases': len(cases)},
         bound_completed='all interleavings for N<=4; deviation bound %d for N in {6,12}' % (1 if ctx.quick else 2),
-        assumptions=['executor job bodies (one sqlite transaction each) take effect atomically at an iteration boundary',
+        assumptions=['executor job bodies (one sqlite transaction each) take effect atomically at an iteration boundary '
+                     '(JOB_RUN) and their completion reaches the loop at a later boundary (JOB_DONE)',
+                     'the fault CANCEL(build) is injected only while lbry code owns the build (inside Transaction.create or '
+                     'ledger.broadcast_or_release), at any iteration boundary, at most once per execution',
+                     'state-hash pruning merges executions whose full harness state is equal (validated by the '
+                     'pruning_cross_checks cases, explored with and without pruning)',
+                     'a case is not explored further after 25 violating executions (never on a silent tree)',
                      'a cancelled asyncio future drops the result of a job that already ran; a job that has not started '
                      'when its future is cancelled never runs (both happen with a real ThreadPoolExecutor)',
                      'a build that ends with CancelledError or any exception counts as failed',
